@@ -63,7 +63,7 @@ for m in sorted(glob.glob(os.path.join(V, "seeded", "*", "meta.json"))):
         if os.path.exists(xl) and not fhit:
             xh = [v for v in verdict(xl) if "VIOLATION with concrete replay" in v]
             if xh: FIRST[name] += "; caught by another property's check: " + xh[0].split(":")[0]
-    if k[:3] in ("r3-", "r4-", "r5-", "r6-", "r7-"):
+    if k[:3] in ("r3-", "r4-", "r5-", "r6-", "r7-", "r8-"):
         fl = os.path.join(V, "notes", "seedlogs", f"{k[:2]}first_{name}.log")
         if os.path.exists(fl):
             fr = verdict(fl)
